@@ -227,6 +227,10 @@ def ss_apply(w, op):
         f, m = binops[name]
         return setres(lambda: f(b)), srt(m)
     if name in cmps:
+        if w.order == 'eq-only' and name in ('eq', 'ne'):
+            # unorderable elements are outside the statement ("any single comparable type"): their internal order is
+            # insertion order and ==/!= between two SortedSets of them is not defined by it (coordinator decision)
+            return ('skip',), ('skip',)
         f, m = cmps[name]
         return guard(lambda: ('val', f(b))), ('val', m)
     if name.startswith('set:') or name.startswith('rset:'):
@@ -519,7 +523,7 @@ def fingerprint(spec, op, clause):
         if order == 'partial-order':
             return 'C33/sortedset/partially-ordered-elements/%s' % clause.split('/')[0]
         if order == 'eq-only':
-            return 'C33/sortedset/unorderable-elements/%s/%s' % (op[0], clause.split('/')[0])
+            return 'C33/sortedset/unorderable-elements/%s' % clause.split('/')[0]
         return 'C33/sortedset/%s/%s' % (op[0], clause)
     return 'C33/%s/%s/%s' % (spec[1].lower(), op[0], clause)
 
@@ -641,6 +645,9 @@ def run(ctx):
                'equality and only key values whose pickles are canonical are generated (no containers of equal-but-distinct strings)')
     ctx.assume('OrderedMap == OrderedMap with the same pairs in another order is not defined by the statement and not compared')
     ctx.assume('mixed non-comparable elements (int with None) are outside the statement and not generated')
+    ctx.assume('unorderable elements (dicts/maps, ==-only) are outside the statement ("elements of any single comparable type"): '
+               'for that domain ==/!= between two SortedSets (which depends on insertion order) is not compared; membership, '
+               'add/remove/pop, the set operations and subset comparisons still are')
 
 
 def replay(ctx, d):
